@@ -506,11 +506,12 @@ func (s *Snapshotter) compact() error {
 	// Flush the existing snapshot, ignoring errors since we will
 	// delete it momentarily.
 	_ = s.buffered.Flush()
-	s.buffered = nil
 
-	// Close the file handle to the old snapshot
+	// Close the file handle to the old snapshot. The handles are kept until
+	// the new ones are in place: if one of the steps below fails, writes to
+	// the closed file report errors, which makes tryAppend come back here,
+	// instead of the nil handles crashing the next append or the shutdown.
 	s.fh.Close()
-	s.fh = nil
 
 	// Delete the old file
 	if err := os.Remove(s.path); err != nil {
